@@ -233,3 +233,69 @@ def busy_predicate(ctx):
         raise AnchorMissing('sm.start(...) not found in start_machine')
     ctx.check(bool(st) and all(cfg.dominates(st, i) for i in post), f'{sm.qualname}:status stored before the task is posted', sm.node,
               'a (busy) status is stored on every path before sm.start', 'the task is posted before a busy status was stored', sm)
+
+
+@rule('C14.R3b', min_instances=2)
+def every_request_is_posted(ctx):
+    """start() and stop() post their task on EVERY normal path: a request may be superseded only by a later request,
+    never dropped by the posting function itself (a stop that is skipped because a stop-triggered cleanup is still
+    running loses against a start that arrived in between: the superseded start wins, the machine never becomes idle)"""
+    m = ctx.m
+    for name in ('start', 'stop'):
+        f = _m(m, name)
+        ctx.analysed(f)
+        cfg = CFG(f.node, m, f.module)
+        posts = [i for t, v, s in attr_stores(f.node) if t.attr == 'next_task' and dotted(t.value) == 'self' for i in cfg.node_of(s)]
+        ok = bool(posts) and cfg.all_paths_pass([cfg.entry], [cfg.exit], posts, exc=False)
+        ctx.check(ok, f'{f.qualname}:posts its task on every path', f.node, 'no normal path around the store of next_task',
+                  f'{name}() can return without posting its task: the request is silently dropped, an earlier (superseded) request is '
+                  'carried out instead', f)
+
+
+@rule('C14.R7', min_instances=3)
+def task_kind_is_tested_on_the_task_itself(ctx):
+    """a pending task is a Start (with .newstate / .kwds) or a Stop (without): every read of .newstate / .kwds of a task
+    expression lies on the Start side of an isinstance test OF THAT SAME EXPRESSION (testing another slot, e.g.
+    cleanup_reason instead of next_task, decides on the request that is being cleaned up, not on the one that is pending)"""
+    m = ctx.m
+    n = 0
+    funcs = [fi for q, fi in sorted(m.functions.items()) if fi.module.name in ('frappy.lib.statemachine', 'frappy.states') and fi.cls is not None]
+    for f in funcs:
+        reads = [x for x in body_walk(f.node) if isinstance(x, ast.Attribute) and x.attr in ('newstate', 'kwds') and isinstance(x.ctx, ast.Load)
+                 and not (isinstance(x.value, ast.Name) and x.value.id == 'self')]
+        if not reads:
+            continue
+        cfg = CFG(f.node, m, f.module)
+        for r in reads:
+            e = src(r.value)
+            n += 1
+            ctx.analysed(f)
+            ok = False
+            tests_seen = []
+            for t in cfg.nodes:
+                if t.kind != 'test':
+                    continue
+                for c in [x for x in ast.walk(t.ast) if isinstance(x, ast.Call) and dotted(x.func) == 'isinstance' and len(x.args) == 2]:
+                    if src(c.args[0]) != e:
+                        continue
+                    kinds = {dotted(k) for k in (c.args[1].elts if isinstance(c.args[1], ast.Tuple) else [c.args[1]])}
+                    tests_seen.append(src(c))
+                    negated = isinstance(t.ast, ast.UnaryOp) and isinstance(t.ast.op, ast.Not)
+                    simple = t.ast is c or (negated and t.ast.operand is c)
+                    if not simple:
+                        continue
+                    on_t = cfg.reach([t.id], labels={'T'}, avoid=[t.id])
+                    on_f = cfg.reach([t.id], labels={'F'}, avoid=[t.id])
+                    if negated:
+                        on_t, on_f = on_f, on_t
+                    ids = set(cfg.node_of(r))
+                    if kinds == {'Start'} and ids <= on_t and not (ids & on_f):
+                        ok = True
+                    if 'Stop' in kinds and 'Start' not in kinds and ids <= on_f and not (ids & on_t):
+                        ok = True
+            ctx.check(ok, f'{f.qualname}:`{e}.{r.attr}` read on the Start side', r, f'guarded by an isinstance test of `{e}`',
+                      f'`{src(r)}` is read without an isinstance(…, Start / Stop) test of `{e}` deciding the path (tests of that expression seen: '
+                      f'{tests_seen or "none"}): when the pending task is a Stop the read raises AttributeError inside the transition callback / the '
+                      'status announced for the pending request belongs to another request', f)
+    if n < 2:
+        raise AnchorMissing('reads of .newstate / .kwds of task objects not found in statemachine.py / states.py')
